@@ -2,6 +2,9 @@ package verifh
 
 import (
 	"bufio"
+	"image/png"
+
+	webp "github.com/deepteams/webp"
 	"bytes"
 	"encoding/binary"
 	"encoding/json"
@@ -84,6 +87,8 @@ func Main() {
 		os.Exit(workMain(os.Args[2:]))
 	case "replay":
 		os.Exit(replayMain(os.Args[2:]))
+	case "storedump":
+		os.Exit(storeDump(os.Args[2:]))
 	case "c05dump":
 		os.Exit(c05Dump(os.Args[2:]))
 	case "realop":
@@ -880,4 +885,36 @@ func writeEvidence(prop Property, doc PropDoc, tier string, seed uint64, st *Sta
 	dir := filepath.Join(verifDir(), "evidence")
 	os.MkdirAll(dir, 0o755)
 	os.WriteFile(filepath.Join(dir, prop.ID()+".json"), b, 0o644)
+}
+
+// storeDump writes the file Encode produces for a C01/C02/C07 replay (alone,
+// canonical schedule, the replay's worker count) to stdout, and the source image
+// as PNG to <arg2> if given: for checking a finding against the un-rewritten
+// library and other decoders.
+func storeDump(args []string) int {
+	b, err := os.ReadFile(args[0])
+	if err != nil {
+		return 2
+	}
+	var rf ReplayFile
+	json.Unmarshal(b, &rf)
+	var p StoreParams
+	json.Unmarshal(rf.Params, &p)
+	warmUp()
+	img := Generate(p.Img)
+	var out []byte
+	x := &X{Stats: NewStats(), Quiet: true}
+	x.Solo(p.Sched.Procs, func() {
+		wr := &SimWriter{}
+		if webp.Encode(wr, img, p.Opt.ToOptions()) == nil {
+			out = wr.Data
+		}
+	})
+	os.Stdout.Write(out)
+	if len(args) > 1 {
+		f, _ := os.Create(args[1])
+		png.Encode(f, img)
+		f.Close()
+	}
+	return 0
 }
